@@ -170,7 +170,11 @@ pub fn scenario_strategy() -> BoxedStrategy<Scenario> {
         // shuffled file names
         let mut order: Vec<usize> = (0..files.len()).collect();
         order.sort_by_key(|&i| ((i as u32 + 1).wrapping_mul(shuffle as u32 | 1).wrapping_mul(2654435761)) >> 8);
-        let files = order.into_iter().enumerate().map(|(k, i)| (format!("{:02}_{}", k, files[i].0), files[i].1.clone())).collect();
+        // a quarter of the scenarios keep each confirmation in a folder of its own under the SAME base name (trade_conf.txt, rsu.txt, ...), as
+        // a download-per-event habit produces them
+        let in_folders = shuffle % 4 == 1;
+        let strip = |n: &str| -> String { match n.rsplit_once('_') { Some((a, b)) if b.trim_end_matches(".txt").chars().all(|c| c.is_ascii_digit()) => format!("{a}.txt"), _ => n.to_string() } };
+        let files = order.into_iter().enumerate().map(|(k, i)| (if in_folders { format!("{:02}_event/{}", k, strip(&files[i].0)) } else { format!("{:02}_{}", k, files[i].0) }, files[i].1.clone())).collect();
         Scenario { benefits, trades, files }
     }).boxed()
 }
@@ -196,7 +200,7 @@ pub fn run_extract(files: &[(String, String)], tag: &str) -> Result<(bool, Strin
     let _ = std::fs::remove_dir_all(&dir);
     let _ = std::fs::create_dir_all(&dir);
     let mut paths = vec![];
-    for (n, t) in files { let p = dir.join(n); let _ = std::fs::write(&p, t); paths.push(p); }
+    for (n, t) in files { let p = dir.join(n); if let Some(par) = p.parent() { let _ = std::fs::create_dir_all(par); } let _ = std::fs::write(&p, t); paths.push(p); }
     let (oh, ob) = acb::util::rw::WriteHandle::string_buff_write_handle();
     let (eh, eb) = acb::util::rw::WriteHandle::string_buff_write_handle();
     let r = guard(|| acb::peripheral::etrade_plan_pdf_tx_extract_impl::run_with_args(acb::peripheral::etrade_plan_pdf_tx_extract_impl::Args { files: paths.clone(), pretty: false, extract_only: false, debug: false }, oh, eh));
@@ -318,6 +322,7 @@ fn check(sc: &Scenario, obs: &mut Obs) -> Verdict {
     if counts.values().any(|c| *c >= 2) { obs.nt("equal-share-counts-among-trades"); }
     if sc.trades.iter().enumerate().any(|(i, a)| sc.trades.iter().skip(i + 1).any(|b| a.sym == b.sym && a.td == b.td && a.sd == b.sd && a.shares == b.shares && a.price == b.price && a.commission == b.commission && a.fee == b.fee)) { obs.class("two-identical-confirmations"); }
     for b in &sc.benefits { obs.class(format!("benefit:{}", b.kind)); }
+    if sc.files.iter().any(|f| f.0.contains('/')) { obs.class("confirmations-in-folders-under-one-base-name"); }
     if sc.benefits.iter().any(|b| b.kind == "ESO" && b.sold.map(|s| s > b.shares).unwrap_or(false)) { obs.class("option-exercise-selling-more-than-its-last-grant"); }
     if rows.iter().any(|r| r[cm].ends_with("(manual trade)")) { obs.class("manual-trades"); }
     if err.contains("varrying dates") { obs.class("warning:varying-dates"); }
